@@ -21,12 +21,9 @@ import (
 	"syscall"
 	"testing/iotest"
 
-	fhttp "github.com/synnaxlabs/freighter/http"
 	"github.com/synnaxlabs/synnax/pkg/distribution/channel"
 	"github.com/synnaxlabs/synnax/pkg/distribution/framer/codec"
 	"github.com/synnaxlabs/synnax/pkg/distribution/framer/frame"
-	httpframer "github.com/synnaxlabs/synnax/pkg/transport/http/framer"
-	xjson "github.com/synnaxlabs/x/encoding/json"
 	"github.com/synnaxlabs/x/errors"
 	"github.com/synnaxlabs/x/telem"
 	"github.com/synnaxlabs/x/validate"
@@ -84,7 +81,6 @@ type op struct {
 	Src      string     `json:"src"`
 	Bytes    string     `json:"bytes"`
 	Mut      []mutation `json:"mut"`
-	Msg      int        `json:"msg"`
 }
 
 type tcase struct {
@@ -274,36 +270,6 @@ func runCase(c tcase) (res result) {
 				} else {
 					r.Hex = hex.EncodeToString(b)
 					last = b
-				}
-			case "http":
-				// the codec the websocket server registers per connection (WithCodec), before
-				// any channel set was negotiated, fed one raw websocket message
-				in, _ := hex.DecodeString(o.Bytes)
-				r.In = hex.EncodeToString(in)
-				hc := &httpframer.Codec{LowerPerfCodec: xjson.Codec, Codec: codec.NewDynamic(nil)}
-				var err error
-				runtime.ReadMemStats(&ms1)
-				metering = true
-				switch o.Msg {
-				case 0:
-					err = hc.Decode(ctx, in, &fhttp.WSMessage[httpframer.WriterRequest]{})
-				case 1:
-					err = hc.Decode(ctx, in, &fhttp.WSMessage[httpframer.StreamerResponse]{})
-				case 2:
-					err = hc.Decode(ctx, in, &fhttp.WSMessage[httpframer.IteratorResponse]{})
-				case 3:
-					err = hc.Decode(ctx, in, &fhttp.WSMessage[httpframer.WriterResponse]{})
-				case 4:
-					err = hc.Decode(ctx, in, &fhttp.WSMessage[httpframer.StreamerRequest]{})
-				default:
-					err = hc.Decode(ctx, in, &fhttp.WSMessage[httpframer.IteratorRequest]{})
-				}
-				runtime.ReadMemStats(&ms2)
-				metering = false
-				r.Alloc = ms2.TotalAlloc - ms1.TotalAlloc
-				r.Cls = classify(err)
-				if err != nil {
-					r.Msg = err.Error()
 				}
 			case "decode":
 				s, ok := slots[o.Who]
